@@ -954,7 +954,7 @@ func main() {
 		tsc = append(tsc, genTimingRead(*tier)...)
 		asc = genAccept(lim, *tier)
 		if *tier == "thorough" {
-			for k := 2; k <= 4; k++ {
+			for k := 2; k <= 8; k++ {
 				lim2 := limits{Idle: 300 + r.Intn(200), Rhdr: 200 + r.Intn(150), Read: 0, TLS: 250 + r.Intn(150), PP: 150 + r.Intn(150)}
 				for _, s := range genTiming(lim2, *tier, r) {
 					s.Name += fmt.Sprintf("#%d", k)
@@ -996,6 +996,10 @@ func main() {
 	}
 	tres := make([]timingResult, len(tsc))
 	var wg sync.WaitGroup
+	// every proxy is started (certificates generated, listeners up) before any clock is read, and at most
+	// 32 timing scenarios run at once: measurements are not disturbed by start-up work of other proxies
+	rigs := map[key]*proxyRig{}
+	var rmu sync.Mutex
 	for k, idx := range groups {
 		wg.Add(1)
 		go func(k key, idx []int) {
@@ -1007,6 +1011,21 @@ func main() {
 				}
 				return
 			}
+			rmu.Lock()
+			rigs[k] = rig
+			rmu.Unlock()
+		}(k, idx)
+	}
+	wg.Wait()
+	global := make(chan struct{}, 32)
+	for k, idx := range groups {
+		rig := rigs[k]
+		if rig == nil {
+			continue
+		}
+		wg.Add(1)
+		go func(rig *proxyRig, idx []int) {
+			defer wg.Done()
 			defer rig.close()
 			// up to 4 scenarios of one proxy at a time unless the stack has the PROXY listener
 			par := 4
@@ -1021,12 +1040,15 @@ func main() {
 				go func(i int) {
 					defer wg2.Done()
 					defer func() { <-sem }()
+					global <- struct{}{}
+					defer func() { <-global }()
 					tres[i] = runTiming(rig, org, tsc[i], hello)
 				}(i)
 			}
 			wg2.Wait()
-		}(k, idx)
+		}(rig, idx)
 	}
+	wg.Wait()
 	// accept scenarios, each with its own proxy, 6 at a time
 	ares := make([]acceptResult, len(asc))
 	sem := make(chan struct{}, 6)
